@@ -166,7 +166,7 @@ func ruleLK1(c *Ctx) {
 		if call == nil || calleeFullName(&call.Call) != "errors.Is" {
 			return false
 		}
-		if resolveEnv(strip(call.Call.Args[0]), a.Env) != ssa.Value(raw) && strip(resolveEnv(call.Call.Args[0], a.Env)) != ssa.Value(raw) {
+		if resolveEnv(strip(call.Call.Args[0]), a.Env) != ssa.Value(raw) && strip(resolveEnv(call.Call.Args[0], a.Env)) != ssa.Value(raw) && !holdsValue(resolveEnv(call.Call.Args[0], a.Env), raw) {
 			return false
 		}
 		return strings.Contains(call.Call.Args[1].Type().String(), "error")
@@ -356,7 +356,7 @@ func ruleLK1(c *Ctx) {
 	if cbv != nil {
 		blk := cb.Block()
 		if r, ok := blk.Instrs[len(blk.Instrs)-1].(*ssa.Return); ok && len(r.Results) == 1 {
-			if strip(r.Results[0]) == ssa.Value(cbv) {
+			if strip(r.Results[0]) == ssa.Value(cbv) || strip(returnedValue(r, 0)) == ssa.Value(cbv) {
 				resOK = true
 			} else if u, ok := r.Results[0].(*ssa.UnOp); ok && u.Op == token.MUL {
 				// last store to the result cell in this block before the return
